@@ -32,7 +32,7 @@ Record actor := Actor {
   sp       : sproc;
   par      : option nat;    (* who spawns / spawned it (ghost) *)
   ph       : option phase;  (* position of the SpawnChild call creating it, None once addNode ran *)
-  spawning : nat;           (* ghost: SpawnChild calls of THIS actor as parent between IsRunning test and addNode *)
+  spawning : list nat;      (* ghost: children whose SpawnChild by THIS actor is between the IsRunning test and addNode *)
   reg      : bool;          (* has a node in the tree *)
   kids     : list nat;      (* ids in the node's descendants map *)
   snap     : list nat;      (* ghost: the children freeChildren read *)
@@ -44,8 +44,8 @@ Record st := St {
   term  : list nat;         (* Terminated messages queued at the death watch *)
 }.
 
-Definition fresh : actor := Actor false false false SIdle None None 0 false [] [].
-Definition root_actor : actor := Actor true false true SIdle None None 0 true [] [].
+Definition fresh : actor := Actor false false false SIdle None None [] false [] [].
+Definition root_actor : actor := Actor true false true SIdle None None [] true [] [].
 (* actor 0 plays the user guardian: running and registered *)
 Definition init : st := St (fun i => if Nat.eqb i 0 then root_actor else fresh) [] [].
 
@@ -56,7 +56,7 @@ Definition set_sp (a : actor) (s : sproc) :=
   Actor (running a) (stopping a) (started a) s (par a) (ph a) (spawning a) (reg a) (kids a) (snap a).
 Definition set_kids (a : actor) (k : list nat) :=
   Actor (running a) (stopping a) (started a) (sp a) (par a) (ph a) (spawning a) (reg a) k (snap a).
-Definition set_spawning (a : actor) (n : nat) :=
+Definition set_spawning (a : actor) (n : list nat) :=
   Actor (running a) (stopping a) (started a) (sp a) (par a) (ph a) n (reg a) (kids a) (snap a).
 
 (* PID.IsRunning: running and not stopping (suspension/passivation not modelled) *)
@@ -168,9 +168,11 @@ Definition step (ws : bool) (s : st) (l : label) : option st :=
   | LSpawnCheck p c =>
     match par (A c), ph (A c) with
     | None, None =>
+      (* [ph (A p) = None]: a PID is published only when its own spawn has returned *)
       if is_running (A p) && negb (started (A c)) && negb (Nat.eqb c 0) && negb (Nat.eqb c p)
-      then Some (St (upd (upd A c (Actor false false false SIdle (Some p) (Some Checked) 0 false [] []))
-                         p (set_spawning (A p) (S (spawning (A p)))))
+         && match ph (A p) with None => true | Some _ => false end
+      then Some (St (upd (upd A c (Actor false false false SIdle (Some p) (Some Checked) [] false [] []))
+                         p (set_spawning (A p) (c :: spawning (A p))))
                     (trace s) (term s))
       else None
     | _, _ => None
@@ -178,7 +180,7 @@ Definition step (ws : bool) (s : st) (l : label) : option st :=
   | LSpawnInit c =>
     match ph (A c) with
     | Some Checked =>
-      Some (St (upd A c (Actor true false true SIdle (par (A c)) (Some Inited) 0 false [] []))
+      Some (St (upd A c (Actor true false true SIdle (par (A c)) (Some Inited) [] false [] []))
                (EPre c :: trace s) (term s))
     | _ => None
     end
@@ -189,7 +191,7 @@ Definition step (ws : bool) (s : st) (l : label) : option st :=
       let A1 := upd A c (Actor (running Ac) (stopping Ac) (started Ac) (sp Ac) (par Ac) None (spawning Ac)
                                (reg (A p)) (kids Ac) (snap Ac)) in
       let Ap := A1 p in
-      let A2 := upd A1 p (Actor (running Ap) (stopping Ap) (started Ap) (sp Ap) (par Ap) (ph Ap) (pred (spawning Ap))
+      let A2 := upd A1 p (Actor (running Ap) (stopping Ap) (started Ap) (sp Ap) (par Ap) (ph Ap) (remove_nat c (spawning Ap))
                                 (reg Ap) (if reg Ap then kids Ap ++ [c] else kids Ap) (snap Ap)) in
       Some (St A2 (trace s) (term s))
     | _, _ => None
@@ -226,7 +228,7 @@ Inductive reach (ws : bool) : st -> Prop :=
 Definition step_ok (s : st) (l : label) : bool :=
   match l with
   | LDisownTest a c => match sp (acts s c) with SIdle => true | _ => false end
-  | LSnapshot a => Nat.eqb (spawning (acts s a)) 0
+  | LSnapshot a => match spawning (acts s a) with [] => true | _ => false end
   | _ => true
   end.
 
